@@ -302,6 +302,18 @@ func awaitReaction(n *Net) (string, reaction) {
 				"failed to decode packet payload", "failed to decode NTS packet", "failed to process NTS packet",
 				"received packet to unexpected destination", "failed to handle packet", "failed to decode packet",
 				"failed to authenticate packet":
+				// some of these are logged before the retry decision: an error
+				// return follows at once if the retry was already used
+				select {
+				case lr2 := <-n.Logs:
+					if lr2.Msg == "failed to measure clock offset" {
+						return "error", r
+					}
+					if lr2.Msg == "client panic" {
+						return "panic", r
+					}
+				case <-time.After(3 * time.Millisecond):
+				}
 				return "skip", r
 			case "failed to measure clock offset":
 				return "error", r
